@@ -665,7 +665,24 @@ func extra7C19(c *Ctx) {
 			if !isBr || br.Tok != token.CONTINUE {
 				return true
 			}
-			elseBranch = &ast.BlockStmt{Lbrace: ifs.End(), Rbrace: ifs.End()}
+			// the statements that follow the if in its block are what runs otherwise
+			rest := &ast.BlockStmt{Lbrace: ifs.End(), Rbrace: ifs.End()}
+			ast.Inspect(f.Body, func(q ast.Node) bool {
+				blk, isBlk := q.(*ast.BlockStmt)
+				if !isBlk {
+					return true
+				}
+				for i, st := range blk.List {
+					if st == ast.Stmt(ifs) {
+						rest.List = blk.List[i+1:]
+						if len(rest.List) > 0 {
+							rest.Rbrace = rest.List[len(rest.List)-1].End()
+						}
+					}
+				}
+				return true
+			})
+			elseBranch = rest
 		}
 		// which branch appends a new entry (append(list, &msg))?
 		appendsIn := func(b ast.Node) (types.Object, bool) {
@@ -679,7 +696,16 @@ func extra7C19(c *Ctx) {
 				if !isC || core.CalleeName(info, call) != "builtin.append" || len(call.Args) != 2 {
 					return true
 				}
+				isNew := false
 				if u, isU := ast.Unparen(call.Args[1]).(*ast.UnaryExpr); isU && u.Op == token.AND {
+					isNew = true
+				}
+				if pid, isP := ast.Unparen(call.Args[1]).(*ast.Ident); isP { // a local that holds &msg
+					if _, isPtr := info.TypeOf(pid).(*types.Pointer); isPtr {
+						isNew = true
+					}
+				}
+				if isNew {
 					if id, isId := ast.Unparen(as.Lhs[0]).(*ast.Ident); isId {
 						lst = info.ObjectOf(id)
 					}
@@ -740,6 +766,13 @@ func extra7C19(c *Ctx) {
 				}
 				return false
 			}
+			// … or a pointer to the last entry compared with nil
+			if x, _, isNil := core.IsNilCheck(info, be); isNil {
+				if _, isPtr := info.TypeOf(x).(*types.Pointer); isPtr {
+					nEmpty++
+					continue
+				}
+			}
 			_, isIdx := ast.Unparen(be.X).(*ast.IndexExpr)
 			if isLen(be.X) && !isIdx && selName(be.X) != "Role" {
 				if _, isC := core.ConstInt(info, be.Y); isC {
@@ -748,7 +781,22 @@ func extra7C19(c *Ctx) {
 				}
 			}
 			// role comparison between the last entry and the message
-			if (be.Op == token.EQL || be.Op == token.NEQ) && selName(be.X) == "Role" && selName(be.Y) == "Role" && (core.UsesObj(info, be.X, lst) != core.UsesObj(info, be.Y, lst)) {
+			rootOf := func(e ast.Expr) types.Object {
+				if p := core.PathOf(info, e); p.Valid() {
+					return p.Root
+				}
+				var o types.Object
+				ast.Inspect(e, func(q ast.Node) bool {
+					if id, ok := q.(*ast.Ident); ok && o == nil {
+						if v, isV := info.Uses[id].(*types.Var); isV {
+							o = v
+						}
+					}
+					return true
+				})
+				return o
+			}
+			if (be.Op == token.EQL || be.Op == token.NEQ) && selName(be.X) == "Role" && selName(be.Y) == "Role" && rootOf(be.X) != nil && rootOf(be.X) != rootOf(be.Y) {
 				nRole++
 				continue
 			}
